@@ -7,6 +7,8 @@ import LinfaSpec.Proofs.Hier
 import LinfaSpec.Proofs.SparseSum
 import LinfaSpec.Proofs.SparseDot
 import LinfaSpec.Proofs.HierSingle
+import LinfaSpec.Proofs.HierKernel
+import LinfaSpec.Proofs.KernelKnn
 
 /-!
 # C06 — Kernel matrices hold the kernel function; hierarchical clustering partitions
@@ -539,6 +541,163 @@ example : SLOK exD ([⟨0, 1, 1, 2⟩, ⟨2, 3, 2, 3⟩] : List (Step Nat)) (ini
 
 example : replay (Crit.dist 2 : Crit Nat) 3 [⟨0, 1, 1, 2⟩, ⟨2, 3, 2, 3⟩] = some [(3, [0, 1]), (2, [2])] := by
   decide
+
+
+/-! ## round 3: the functions the driver answers through
+
+`kernelBuild` (the whole `Kernel::new`, `method` field included), `checkCrit` with *any* float predicates
+(so also the bit-level ones the driver runs), `transformKernel` (the `-ln` transform composed with the external
+linkage and the replay), and "whichever neighbour index is used". -/
+
+section
+variable {α : Type} [Field α] [Transc α] [KPow α]
+
+/-- **`Kernel::new` hands the kernel method through untouched**: the kernel it returns carries exactly the
+requested method (bandwidth, constant, degree as given — no clamping or rounding), reports `is_linear` of that
+method, and its matrix is the one `kernelNew` builds from that same method -/
+theorem kernel_build_method (kind : Kind) (m : Method α) (X : List (List α)) (nb : List (List Nat)) (K : Built α)
+    (h : kernelBuild kind m X nb = some K) :
+    K.method = m ∧ K.isLinear = m.isLinear ∧ kernelNew kind m X nb = some K.inner := by
+  simp only [kernelBuild, Option.map_eq_some_iff] at h
+  obtain ⟨I, hI, rfl⟩ := h
+  exact ⟨rfl, rfl, hI⟩
+
+/-- `kernelBuild` succeeds exactly when `kernelNew` does (dense, or `0 < k < n`) -/
+theorem kernel_build_guard (kind : Kind) (m : Method α) (X : List (List α)) (nb : List (List Nat)) :
+    (kernelBuild kind m X nb).isSome ↔
+      match kind with
+      | .dense => True
+      | .sparse k => 0 < k ∧ k < X.length := by
+  rw [← kernel_new_guard kind m X nb]
+  simp [kernelBuild]
+
+/-- **the sparse kernel depends on the neighbour index only through the sets it returns**: two indices whose
+answers have the same members for every row (in whatever order) give the same kernel -/
+theorem sparse_index_independent (m : Method α) (X : List (List α)) (k : Nat) (nb nb' : List (List Nat))
+    (h : ∀ i j, i < X.length → (j ∈ nb.getD i [] ↔ j ∈ nb'.getD i [])) :
+    sparseFromFn m X k nb = sparseFromFn m X k nb' := by
+  unfold sparseFromFn
+  simp only [support_congr X.length nb nb' h]
+
+/-- **whichever neighbour index is used** (tie-free records): if both indices answer every `k_nearest(row i,
+k+1)` with *the* `k+1` nearest points under a distance `d i` without ties across the cut (`Nearest`), the two
+sparse kernels are equal -/
+theorem sparse_whichever_index {β : Type} [Preorder β] (d : Nat → Nat → β) (m : Method α) (X : List (List α))
+    (k : Nat) (nb nb' : List (List Nat))
+    (h : ∀ i, i < X.length → Nearest (d i) X.length (k + 1) (nb.getD i []))
+    (h' : ∀ i, i < X.length → Nearest (d i) X.length (k + 1) (nb'.getD i [])) :
+    sparseFromFn m X k nb = sparseFromFn m X k nb' :=
+  sparse_index_independent m X k nb nb' fun i j hi => nearest_unique (d i) X.length (k + 1) _ _ (h i hi) (h' i hi) j
+
+end
+
+example : Nearest (fun j => ([0, 1, 9, 4] : List Nat).getD j 0) 4 2 [1, 0] := by
+  refine ⟨by decide, rfl, by decide, ?_⟩
+  intro a ha b hb hnb
+  have : a = 1 ∨ a = 0 := by simpa using ha
+  have hb' : b = 2 ∨ b = 3 := by
+    have : b ≠ 1 ∧ b ≠ 0 := by simpa using hnb
+    omega
+  rcases this with rfl | rfl <;> rcases hb' with rfl | rfl <;> decide
+
+example : sparseFromFn (.linear : Method ℚ) [[0], [1], [3]] 1 [[0, 1], [1, 0], [2, 1]] =
+    sparseFromFn (.linear : Method ℚ) [[0], [1], [3]] 1 [[1, 0], [0, 1], [1, 2]] :=
+  sparse_index_independent _ _ _ _ _ (by
+    intro i j hi
+    have : i = 0 ∨ i = 1 ∨ i = 2 := by simp at hi; omega
+    rcases this with rfl | rfl | rfl <;> simp [or_comm])
+
+/-- **the guard, for the predicates the driver runs**: with *any* reading of `is_negative` / `is_nan` /
+`is_infinite` (the sign-bit reading of `Float` and `Float32` in `Drv/C06.lean` included) the guard accepts
+exactly a count of at least one and a threshold for which none of the three predicates fires.
+`guard_accepts` is the instance for an ordered field. -/
+theorem guard_accepts_preds {α : Type} (fp : FloatPreds α) (crit : Crit α) :
+    checkCrit fp crit = true ↔
+      match crit with
+      | .num c => 1 ≤ c
+      | .dist d => fp.isNeg d = false ∧ fp.isNan d = false ∧ fp.isInf d = false := by
+  cases crit with
+  | num c => cases c <;> simp [checkCrit]
+  | dist d => simp [checkCrit, and_assoc]
+
+example : checkCrit (⟨fun x => decide (x < 0), fun _ => false, fun x => decide (x = 1000)⟩ : FloatPreds ℚ) (.dist 5) = true :=
+  (guard_accepts_preds _ _).mpr ⟨by decide, rfl, by decide⟩
+
+section
+variable {α : Type} [LT α] [DecidableLT α] [LE α] [DecidableLE α] [Neg α] [Transc α]
+
+/-- **`transform` from the kernel**: a rejected criterion is an error before the kernel is looked at -/
+theorem transform_kernel_invalid (fp : FloatPreds α) (thr : α) (link : List α → Nat → List (Step α))
+    (crit : Crit α) (n : Nat) (ut : List α) (h : checkCrit fp crit = false) :
+    transformKernel fp thr link crit n ut = .invalid :=
+  transform_invalid fp crit n _ h
+
+/-- **`transform` from the kernel**: for an accepted criterion, whatever the kernel's entries, if the external
+linkage answers the `-ln`-transformed upper triangle with a well-formed dendrogram, the result is a partition of
+the samples -/
+theorem transform_kernel_ok (fp : FloatPreds α) (thr : α) (link : List α → Nat → List (Step α))
+    (crit : Crit α) (n : Nat) (ut : List α) (hg : checkCrit fp crit = true)
+    (hd : DendroOK (link (distances thr ut) n) (List.range n) n) :
+    ∃ cl, transformKernel fp thr link crit n ut = .ok cl ∧ (members cl).Perm (List.range n) :=
+  transform_ok fp crit n _ hg hd
+
+/-- the recorded linkage the driver uses answers the model's own question with the recorded dendrogram — so
+the driver's `transformKernel … (recorded close q steps)` is `transform … steps` whenever the model's distance
+vector is the recorded one -/
+theorem transform_kernel_recorded (fp : FloatPreds α) (thr : α) (close : α → α → Bool) (steps : List (Step α))
+    (crit : Crit α) (n : Nat) (ut : List α) (hc : ∀ x ∈ distances thr ut, close x x = true) :
+    transformKernel fp thr (recorded close (distances thr ut) steps) crit n ut = transform fp crit n steps := by
+  unfold transformKernel
+  rw [recorded_self close _ steps n hc]
+
+end
+
+example : ∃ cl, transformKernel (realPreds : FloatPreds ℚ) 0 (fun _ _ => [⟨0, 1, 1, 2⟩, ⟨2, 3, 2, 2⟩, ⟨4, 5, 5, 4⟩])
+    (Crit.num 2) 4 [] = .ok cl := ⟨_, rfl⟩
+
+/-- **"-ln similarity"**: over `ℝ` the transform is `-ln (max x thr)`; a pair is closer than the threshold `d`
+exactly when its (floored) similarity exceeds `exp (-d)`, and a larger similarity is a smaller dissimilarity -/
+theorem toDist_spec (thr x y d : ℝ) (hthr : 0 < thr) :
+    toDist thr x = -Real.log (max x thr) ∧ (toDist thr x < d ↔ Real.exp (-d) < max x thr) ∧
+      (x ≤ y → toDist thr y ≤ toDist thr x) :=
+  ⟨real_toDist thr x, real_toDist_lt_iff thr x d hthr, real_toDist_antitone thr x y hthr⟩
+
+example : toDist (1 / 1000000 : ℝ) 1 = 0 := by
+  rw [real_toDist, max_eq_left (by norm_num), Real.log_one, neg_zero]
+
+/-- **single linkage on a kernel = components of the similarity graph.**  For a symmetric similarity `K`, the
+floor `thr > 0`, and a complete single-linkage dendrogram of the dissimilarities `toDist thr (K i j)` with
+non-decreasing steps: after `Distance(d)` two samples carry the same label exactly when they are connected by a
+chain of pairs whose floored similarity exceeds `exp (-d)` -/
+theorem kernel_single_linkage_components (K : Nat → Nat → ℝ) (hK : ∀ i j, K i j = K j i) (thr : ℝ) (hthr : 0 < thr)
+    (d : ℝ) (n : Nat) (steps : List (Step ℝ))
+    (hc : SLOK (fun i j => toDist thr (K i j)) steps (initClusters n) n)
+    (hm : steps.Pairwise fun x y => x.dis ≤ y.dis) (cl : Clusters)
+    (h : replay (Crit.dist d) n steps = some cl) (i j : Nat) (hi : i < n) :
+    SameCl cl i j ↔ Conn (fun a b => -(max (K a b) thr)) (-(Real.exp (-d))) n i j := by
+  rw [single_linkage_components (fun i j => toDist thr (K i j)) (fun i j => by simp only [hK i j]) d n steps hc hm
+    cl h i j hi]
+  apply conn_congr
+  intro a b
+  rw [real_toDist_lt_iff thr (K a b) d hthr, neg_lt_neg_iff]
+
+section
+variable {α : Type} [LinearOrder α]
+
+/-- **every merge below the threshold, without exact monotonicity**: it suffices that no merge below `d`
+follows a merge at or above `d` (the recomputed dissimilarities of average / weighted / Ward linkage are
+non-decreasing only up to rounding; this hypothesis tolerates any noise that does not cross the threshold) -/
+theorem replay_threshold_all_closed (d : α) (n : Nat) (steps : List (Step α))
+    (hm : ∀ pre s post, steps = pre ++ s :: post → d ≤ s.dis → ∀ t ∈ post, d ≤ t.dis) :
+    replay (Crit.dist d) n steps =
+      mergeAll (steps.filter fun s => decide (s.dis < d)) (initClusters n) n := by
+  rw [replay_threshold, takeWhile_eq_filter_of_closed d steps hm]
+
+end
+
+example : replay (Crit.dist 3 : Crit Nat) 4 [⟨0, 1, 2, 2⟩, ⟨2, 3, 1, 2⟩, ⟨4, 5, 5, 4⟩] =
+    mergeAll (([⟨0, 1, 2, 2⟩, ⟨2, 3, 1, 2⟩, ⟨4, 5, 5, 4⟩] : List (Step Nat)).filter fun s => decide (s.dis < 3))
+      (initClusters 4) 4 := by decide
 
 
 end LinfaSpec.Props.C06
